@@ -46,6 +46,13 @@ def inst_c01(cost, trace=False, warn=False):
     return ("MC_C01", cfg, f"MC_C01 (17-line alphabet, all legal call sequences of length <= {cost})")
 
 
+def inst_immloops(cost):
+    cfg = COMMON_CFG.format(trace="FALSE", warn="FALSE", cost=cost)
+    cfg += "CONSTANT Lines <- ImmLoopLines\nCONSTANT Replies = {}\nCONSTANT Cost <- UnitCost\nCONSTANT StartStates <- EmptyStart\n"
+    cfg += "".join(f"INVARIANT {i}\n" for i in ALL_INVS)
+    return ("MC_Kernels", cfg, f"MC_Kernels (FOR / NEXT typed at the prompt: 7 immediate lines, all sequences of length <= {cost})")
+
+
 def inst_c04(cost):
     cfg = COMMON_CFG.format(trace="FALSE", warn="FALSE", cost=cost)
     cfg = cfg.replace("VIEW StateView", "VIEW C04View")
@@ -74,7 +81,7 @@ def plan(pid, tier):
         "C09": dict(mc=[inst_kernels(1, trace=True, lines="RunOnly"), inst_kernels(1, trace=True, lines="RunOnly", kernels="MatrixKernels")], drivers=[("progs", 200 if q else 3000, ["trace", "input"]), ("progs", 120 if q else 2000, ["trace", "breaks"])]),
         "C10": dict(mc=[inst_c01(5 if q else 6)], drivers=[("runfresh", 120 if q else 6000, [])]),
         "C11": dict(mc=[inst_kernels(3 if q else 4, lines="EditLines")], drivers=[("editprobe", 150 if q else 6000, [])]),
-        "C16": dict(mc=[inst_kernels(1, lines="RunOnly", kernels="CapKernels"), inst_c01(4 if q else 6)],
+        "C16": dict(mc=[inst_kernels(1, lines="RunOnly", kernels="CapKernels"), inst_c01(4 if q else 6), inst_immloops(4 if q else 6)],
                     drivers=[("boundary", 1, []), ("fuzz", 200 if q else 20000, []), ("progs", 40 if q else 1500, [])]),
         "C17": dict(mc=[inst_kernels(2 if q else 3, trace=True, warn=True, lines="BreakLines"), inst_kernels(2 if q else 3, trace=True, warn=True, lines="RunCont", kernels="MatrixKernels")], drivers=[("flags4", 80 if q else 2000, [])]),
     }
